@@ -82,9 +82,12 @@ def extract(cfg, crate_dir=None, crate="cryptoxide", use_cache=True):
         key = hashlib.sha256((tree_hash() + cfg + json.dumps(c, sort_keys=True)).encode()).hexdigest()[:32]
         cp = os.path.join(CACHE, key + ".json")
         if os.path.exists(cp):
-            with open(cp) as fh:
-                d = json.load(fh)
-            return d, {"cfg": cfg, "cached": True, "wall_s": 0.0}
+            try:
+                with open(cp) as fh:
+                    d = json.load(fh)
+                return d, {"cfg": cfg, "cached": True, "wall_s": 0.0}
+            except (OSError, ValueError):
+                pass
     t0 = time.time()
     tmp = tempfile.mkdtemp(prefix="cxfacts-")
     try:
@@ -111,7 +114,12 @@ def extract(cfg, crate_dir=None, crate="cryptoxide", use_cache=True):
         if key:
             os.makedirs(CACHE, exist_ok=True)
             # keep the cache small: drop entries older than the 60 newest
-            ents = sorted((os.path.join(CACHE, f) for f in os.listdir(CACHE)), key=os.path.getmtime)
+            def _mt(path):
+                try:
+                    return os.path.getmtime(path)
+                except OSError:           # removed by a concurrently running check
+                    return 0.0
+            ents = sorted((os.path.join(CACHE, f) for f in os.listdir(CACHE)), key=_mt)
             for old in ents[:-60]:
                 try:
                     os.remove(old)
